@@ -47,6 +47,16 @@ def removeNode (f : Forest N G) (u : N) : Forest N G :=
     edges := f.edges.filter (fun e => e.1.1 != u && e.1.2 != u),
     nodes := f.nodes.filter (· != u) }
 
+/-! ### edge-list export and rebuild (`to_edgelist` / `from_edgelist`) -/
+
+/-- `to_edgelist`: one `(parent, child, matrix)` entry per item of `edge_data`, in dictionary order -/
+def toEdgelist (f : Forest N G) : List (N × N × G) := f.edges.map (fun e => (e.1.1, e.1.2, e.2))
+
+/-- `from_edgelist` on a fresh graph: `update(child, parent, matrix=…)` per entry, i.e. `add_edge` -/
+def fromEdgelist (l : List (N × N × G)) : Forest N G :=
+  l.foldl (fun f e => addEdge f e.1 e.2.1 e.2.2) Forest.empty
+
+
 /-- the chain `v, parent v, parent (parent v), …` (at most `fuel + 1` nodes) -/
 def ancestors (f : Forest N G) : Nat → N → List N
   | 0, v => [v]
